@@ -2,8 +2,21 @@
 //
 // One case = one distributed history on one line:
 //
-//   c04 <P> <flags> <hints> : seg;seg;...
+//   c04 <P> <flags> <hints> [g=<type>] [comm=<spec>] : seg;seg;...
 //
+//   <P>      size of the communicator the RemoteIndices objects live on; every rank in the line is a rank of that
+//            communicator
+//   g=       the global index type of the index sets (default int): int | long | big24 | big40 | pair =
+//            int, long, Dune::bigunsignedint<24> (2 digits of 16 bit, the upper one half used), bigunsignedint<40>
+//            (3 digits), std::pair<int,int> (value v = (v >> 20, v & 0xfffff), lexicographic order = order of v).
+//            The global indices in the line are the values themselves; they have to lie in the range of the type
+//            (int: 32 bit; long: |v| < 2^62; big24: 0..2^24-1; big40, pair: 0..2^40-1), otherwise the line is bad-op.
+//   comm=    the communicator (default w): w = MPI_COMM_WORLD, d = MPI_Comm_dup of it, r0.r1...[+n] = MPI_Comm_split:
+//            the communicator consists of the P world processes r0, r1, ... in this order (world process r_i has rank i
+//            in it), +n = the number of world processes left out (P + n = size of MPI_COMM_WORLD).  The processes left
+//            out form a second communicator on which they run the same B/F/X calls with empty index sets at the same
+//            time (their lists must stay empty).  The answer r<i>{...} is that of the process with rank i in the
+//            communicator (i >= P: left out, empty answer), so the line does not depend on where MPI puts a process.
 //   <flags>  P digits, digit of rank r = (two ? 1 : 0) + (includeSelf ? 2 : 0) + (defaultCtor ? 4 : 0)
 //            two: the rank uses RemoteIndices(source, target) with two distinct index set objects (object 0 and 1),
 //            otherwise RemoteIndices(source, source) (object 0)
@@ -26,7 +39,10 @@
 //     S                               observation: isSynced()
 //     F                               every rank calls free(); observation: f<neighbours()>
 //     X<k>                            every rank calls setIndexSets again: k=0 same roles, k=1 source and target
-//                                     exchanged (two-set ranks); observation: x<neighbours()>
+//                                     exchanged (two-set ranks), passing the hints in force again;
+//                                     observation: x<neighbours()>
+//     X<k>,<hints>                    the same, but passing new hints (format as in the header; "-" for a rank = the
+//                                     call without the neighbours argument): they replace the old ones
 //     I<r>,<b>                        rank r calls setIncludeSelf(b)
 //     N<hints>                        every rank calls setNeighbours with its part of <hints> (format as in the header)
 //   (a1/d1 addressed to a one-set rank are ignored; an add whose (global, attribute) is already present is ignored)
@@ -43,9 +59,11 @@
 #include <memory>
 #include <set>
 
+#include <dune/common/bigunsignedint.hh>
 #include <dune/common/enumset.hh>
 #include <dune/common/parallel/indexset.hh>
 #include <dune/common/parallel/mpihelper.hh>
+#include <dune/common/parallel/mpitraits.hh>
 #include <dune/common/parallel/plocalindex.hh>
 #include <dune/common/parallel/remoteindices.hh>
 
@@ -55,24 +73,25 @@ using namespace dv;
 
 enum Flags { owner = 0, overlap = 1, copy = 2, ghost = 3 };
 typedef Dune::ParallelLocalIndex<Flags> LocalIndex;
-typedef Dune::ParallelIndexSet<int, LocalIndex> PIS;
-typedef Dune::RemoteIndices<PIS> RI;
+typedef long long Val;  // a global index as written in the op line
 
 struct Ent {
-  long g, l;
+  Val g;
+  long l;
   int a;
   bool pub;
 };
-typedef std::pair<long, int> Key;           // (global, attribute): the sort key of ParallelIndexSet
+typedef std::pair<Val, int> Key;            // (global, attribute): the sort key of ParallelIndexSet
 typedef std::map<Key, Ent> Shadow;          // shadow of one index set object
 struct Tuple {                              // one remote index as observed / expected
-  long g;
+  Val g;
   int ra;
   long l;
   int a;
   bool operator<(const Tuple& o) const { return std::tie(g, ra, l, a) < std::tie(o.g, o.ra, o.l, o.a); }
   bool operator==(const Tuple& o) const { return g == o.g && ra == o.ra && l == o.l && a == o.a; }
 };
+typedef std::map<int, std::pair<std::vector<Tuple>, std::vector<Tuple>>> Lists;
 static std::string show(const std::vector<Tuple>& v) {
   std::string s = "[";
   for (size_t i = 0; i < v.size(); ++i) {
@@ -85,9 +104,123 @@ static std::string show(const std::vector<Tuple>& v) {
 
 struct Pending {
   std::vector<Ent> adds;
-  std::set<long> dels;
+  std::set<Val> dels;
 };
 
+// ------------------------------------------------------------------------------------------------------------------
+// the real objects of this process, behind an interface that does not mention the global index type
+struct Api {
+  virtual ~Api() {}
+  virtual void construct(bool dflt, int src, int tgt, const std::vector<int>& hints, bool incl) = 0;
+  virtual void resize(int obj, const std::set<Val>& dels, const std::vector<Ent>& adds) = 0;
+  virtual bool isSynced() = 0;
+  virtual void freeLists() = 0;
+  virtual int neighbours() = 0;
+  virtual bool noLists() = 0;
+  virtual void setIndexSets(int src, int tgt, const std::vector<int>* hints) = 0;  // null: call without the argument
+  virtual bool setsAre(int src, int tgt) = 0;
+  virtual void setIncludeSelf(bool b) = 0;
+  virtual void setNeighbours(const std::vector<int>& hints) = 0;
+  virtual std::set<int> getNeighbours() = 0;
+  virtual void rebuild(bool ign) = 0;
+  virtual std::string lists(Lists& got) = 0;  // returns a problem of the container interface, or ""
+};
+
+template <class G> struct GT;
+template <> struct GT<int> { static int make(Val v) { return (int)v; } };
+template <> struct GT<long> { static long make(Val v) { return (long)v; } };
+template <int k> struct GT<Dune::bigunsignedint<k>> {
+  static Dune::bigunsignedint<k> make(Val v) { return Dune::bigunsignedint<k>((std::uintmax_t)v); }
+};
+template <> struct GT<std::pair<int, int>> {
+  static std::pair<int, int> make(Val v) { return std::pair<int, int>((int)(v >> 20), (int)(v & 0xfffff)); }
+};
+static bool inRange(const std::string& gtype, Val v) {
+  if (gtype == "int") return v >= -2147483648LL && v <= 2147483647LL;
+  if (gtype == "long") return v > -(1LL << 62) && v < (1LL << 62);
+  if (gtype == "big24") return v >= 0 && v < (1LL << 24);
+  return v >= 0 && v < (1LL << 40);  // big40, pair
+}
+
+template <class G> struct ApiT : Api {
+  typedef Dune::ParallelIndexSet<G, LocalIndex> PIS;
+  typedef Dune::RemoteIndices<PIS> RI;
+  MPI_Comm comm;
+  PIS sets[3];
+  std::unique_ptr<RI> ri;
+  // the values the op line has handed to this process so far; a global index read back from the real objects is
+  // translated by looking it up with operator== of the type (nothing of the type's arithmetic is used)
+  std::vector<std::pair<G, Val>> known;
+  explicit ApiT(MPI_Comm c) : comm(c) {}
+  Val valueOf(const G& g) const {
+    for (auto& kv : known) if (kv.first == g) return kv.second;
+    return -4000000000000000000LL;  // an index the op line never mentioned: shows up in the answer
+  }
+  void construct(bool dflt, int src, int tgt, const std::vector<int>& hints, bool incl) override {
+    if (dflt) {
+      ri.reset(new RI());
+      ri->setIndexSets(sets[src], sets[tgt], comm, hints);
+      if (incl) ri->setIncludeSelf(true);  // otherwise the default constructor's includeSelf=false stays
+    } else {
+      ri.reset(new RI(sets[src], sets[tgt], comm, hints, incl));
+    }
+  }
+  void resize(int obj, const std::set<Val>& dels, const std::vector<Ent>& adds) override {
+    PIS& set = sets[obj];
+    set.beginResize();
+    for (auto it = set.begin(); it != set.end(); ++it)
+      if (dels.count(valueOf(it->global()))) set.markAsDeleted(it);
+    for (auto& e : adds) {
+      G g = GT<G>::make(e.g);
+      bool have = false;
+      for (auto& kv : known) if (kv.second == e.g) have = true;
+      if (!have) known.push_back(std::make_pair(g, e.g));
+      set.add(g, LocalIndex((size_t)e.l, (Flags)e.a, e.pub));
+    }
+    set.endResize();
+  }
+  bool isSynced() override { return ri->isSynced(); }
+  void freeLists() override { ri->free(); }
+  int neighbours() override { return ri->neighbours(); }
+  bool noLists() override { return ri->begin() == ri->end(); }
+  void setIndexSets(int src, int tgt, const std::vector<int>* hints) override {
+    if (hints) ri->setIndexSets(sets[src], sets[tgt], comm, *hints);
+    else ri->setIndexSets(sets[src], sets[tgt], comm);
+  }
+  bool setsAre(int src, int tgt) override { return &ri->sourceIndexSet() == &sets[src] && &ri->destinationIndexSet() == &sets[tgt]; }
+  void setIncludeSelf(bool b) override { ri->setIncludeSelf(b); }
+  void setNeighbours(const std::vector<int>& hints) override { ri->setNeighbours(hints); }
+  std::set<int> getNeighbours() override { return ri->getNeighbours(); }
+  void rebuild(bool ign) override {
+    if (ign) ri->template rebuild<true>(); else ri->template rebuild<false>();
+  }
+  std::vector<Tuple> listOf(const typename RI::RemoteIndexList& l) const {
+    std::vector<Tuple> v;
+    for (auto it = l.begin(); it != l.end(); ++it) {
+      const auto& lp = it->localIndexPair();
+      v.push_back(Tuple{valueOf(lp.global()), (int)it->attribute(), (long)lp.local().local(), (int)lp.local().attribute()});
+    }
+    return v;
+  }
+  std::string lists(Lists& got) override {
+    std::string problem;
+    for (auto it = ri->begin(); it != ri->end(); ++it) {
+      got[it->first] = std::make_pair(listOf(*it->second.first), listOf(*it->second.second));
+      auto fit = ri->find(it->first);
+      if (fit == ri->end() || fit->second.first != it->second.first) problem = "find(rank) does not return the entry of the iteration";
+    }
+    return problem;
+  }
+};
+static Api* makeApi(const std::string& gtype, MPI_Comm comm) {
+  if (gtype == "long") return new ApiT<long>(comm);
+  if (gtype == "big24") return new ApiT<Dune::bigunsignedint<24>>(comm);
+  if (gtype == "big40") return new ApiT<Dune::bigunsignedint<40>>(comm);
+  if (gtype == "pair") return new ApiT<std::pair<int, int>>(comm);
+  return new ApiT<int>(comm);
+}
+
+// ------------------------------------------------------------------------------------------------------------------
 // set definition: [(a.g, b.attr, a.l, a.a) | a in A (ascending), b in B, a.g == b.g], restricted to published entries
 static std::vector<Tuple> joinDef(const Shadow& A, const Shadow& B, bool ign, bool dropEqualAttr) {
   std::vector<Tuple> out;
@@ -131,38 +264,21 @@ static bool subMultiset(std::vector<Tuple> a, std::vector<Tuple> b) {  // a ⊆ 
   return std::includes(b.begin(), b.end(), a.begin(), a.end());
 }
 
-static std::vector<Tuple> listOf(const RI::RemoteIndexList& l) {
-  std::vector<Tuple> v;
-  for (auto it = l.begin(); it != l.end(); ++it) {
-    const auto& lp = it->localIndexPair();
-    v.push_back(Tuple{(long)lp.global(), (int)it->attribute(), (long)lp.local().local(), (int)lp.local().attribute()});
-  }
-  return v;
+// ------------------------------------------------------------------------------------------------------------------
+// the op line
+static bool natural(const std::string& w, long& out) {
+  if (w.empty() || w.size() > 9) return false;
+  for (char c : w) if (c < '0' || c > '9') return false;
+  out = std::atol(w.c_str());
+  return true;
 }
-
-static void applyResize(PIS& set, Shadow& sh, Pending& pe, bool real) {
-  // shadow first: (old \ deleted) + adds whose key is new
-  Shadow nsh;
-  for (auto& kv : sh) if (!pe.dels.count(kv.second.g)) nsh.insert(kv);
-  std::vector<Ent> eff;
-  for (auto& e : pe.adds) {
-    Key k(e.g, e.a);
-    if (nsh.count(k)) continue;
-    nsh[k] = e;
-    eff.push_back(e);
-  }
-  if (real) {
-    set.beginResize();
-    for (auto it = set.begin(); it != set.end(); ++it)
-      if (pe.dels.count(it->global())) set.markAsDeleted(it);
-    for (auto& e : eff) set.add((int)e.g, LocalIndex((size_t)e.l, (Flags)e.a, e.pub));
-    set.endResize();
-  }
-  sh = nsh;
-  pe.adds.clear();
-  pe.dels.clear();
+static bool integer(const std::string& w, Val& out) {
+  size_t i = (!w.empty() && w[0] == '-') ? 1 : 0;
+  if (w.size() == i || w.size() - i > 18) return false;
+  for (size_t j = i; j < w.size(); ++j) if (w[j] < '0' || w[j] > '9') return false;
+  out = std::atoll(w.c_str());
+  return true;
 }
-
 // parse "<h0>/<h1>/..." into per-rank hint lists; returns false if malformed
 static bool parseHints(const std::string& str, int P, std::vector<std::vector<int>>& hints) {
   auto hs = split(str, '/');
@@ -171,11 +287,9 @@ static bool parseHints(const std::string& str, int P, std::vector<std::vector<in
   for (int r = 0; r < P; ++r) {
     if (hs[r] == "-") continue;
     for (auto& w : split(hs[r], ',')) {
-      if (w.empty()) return false;
-      for (char c : w) if (c < '0' || c > '9') return false;
-      int q = std::atoi(w.c_str());
-      if (q < 0 || q >= P) return false;
-      hints[r].push_back(q);
+      long q;
+      if (!natural(w, q) || q >= P) return false;
+      hints[r].push_back((int)q);
     }
   }
   return true;
@@ -199,47 +313,166 @@ static const char* hintsProblem(const std::vector<std::vector<int>>& hints, std:
   return nullptr;
 }
 
-static Result exec(const std::string& line) {
-  int rank, size;
-  MPI_Comm_rank(MPI_COMM_WORLD, &rank);
-  MPI_Comm_size(MPI_COMM_WORLD, &size);
-  Result res;
-  auto bad = [&](const std::string& why) {
-    res.impl = "bad-op";
-    res.oracle = "ok trivial " + why;
-    return res;
-  };
+struct Seg {
+  char kind = 0;
+  int s = 0, r = 0, k = 0;
+  Ent e{0, 0, 0, false};
+  bool flag = false;        // B: ignorePublic, I: the new value, X: hints given
+  std::vector<std::vector<int>> hints;   // N, X with hints
+  std::vector<bool> ring, omitted;       // omitted[r]: "-" (X: the call without the argument)
+};
+struct Case {
+  int P = 0, extra = 0;
+  std::vector<bool> two, incl, dflt;
+  std::vector<std::vector<int>> hints;
+  std::vector<bool> ring;
+  std::string gtype = "int";
+  char comm = 'w';                 // w, d, l (list)
+  std::vector<int> members;        // comm == 'l': world rank of communicator rank i
+  std::vector<Seg> segs;
+  // role = number under which a world process appears in the op line and in the answer
+  int roleOf(int wrank) const {
+    if (comm != 'l') return wrank;
+    int rest = P;
+    for (int w = 0; w < P + extra; ++w) {
+      auto it = std::find(members.begin(), members.end(), w);
+      if (w == wrank) return it != members.end() ? (int)(it - members.begin()) : rest;
+      if (it == members.end()) ++rest;
+    }
+    return -1;
+  }
+};
+
+static bool parseHintsSeg(const std::string& str, int P, Seg& sg, std::string& why) {
+  if (!parseHints(str, P, sg.hints)) { why = "segment"; return false; }
+  if (const char* w = hintsProblem(sg.hints, sg.ring)) { why = w; return false; }
+  auto hs = split(str, '/');
+  sg.omitted.assign(P, false);
+  for (int r = 0; r < P; ++r) sg.omitted[r] = hs[r] == "-";
+  return true;
+}
+
+static bool parseCase(const std::string& line, int wsize, Case& c, std::string& why) {
   size_t colon = line.find(" : ");
   std::string head = colon == std::string::npos ? line : line.substr(0, colon);
   std::string body = colon == std::string::npos ? "" : line.substr(colon + 3);
   auto hw = words(head);
-  if (hw.size() != 4 || hw[0] != "c04") return bad("header");
-  for (char c : hw[1]) if (c < '0' || c > '9') return bad("np");
-  int P = std::atoi(hw[1].c_str());
-  if (P != size) return bad("np");
-  if ((int)hw[2].size() != P) return bad("flags");
-  std::vector<bool> two(P), incl(P), dflt(P);
-  for (int r = 0; r < P; ++r) {
+  why = "header";
+  if (hw.size() < 4 || hw.size() > 6 || hw[0] != "c04") return false;
+  long P;
+  why = "np";
+  if (!natural(hw[1], P) || P < 1 || P > wsize) return false;
+  c.P = (int)P;
+  why = "flags";
+  if ((int)hw[2].size() != c.P) return false;
+  c.two.assign(P, false); c.incl.assign(P, false); c.dflt.assign(P, false);
+  for (int r = 0; r < c.P; ++r) {
     int f = hw[2][r] - '0';
-    if (f < 0 || f > 7) return bad("flags");
-    two[r] = f & 1;
-    incl[r] = f & 2;
-    dflt[r] = f & 4;
+    if (f < 0 || f > 7) return false;
+    c.two[r] = f & 1;
+    c.incl[r] = f & 2;
+    c.dflt[r] = f & 4;
   }
-  std::vector<std::vector<int>> hints;
-  std::vector<bool> ring;
-  if (!parseHints(hw[3], P, hints)) return bad("hints");
-  if (const char* why = hintsProblem(hints, ring)) return bad(why);
-  bool mixed = false, anyIncl = false, anyDflt = false;
-  for (int r = 0; r < P; ++r) { if (two[r] != two[0]) mixed = true; if (incl[r]) anyIncl = true; if (dflt[r]) anyDflt = true; }
+  why = "hints";
+  if (!parseHints(hw[3], c.P, c.hints)) return false;
+  if (const char* w = hintsProblem(c.hints, c.ring)) { why = w; return false; }
+  bool seenG = false, seenC = false;
+  for (size_t i = 4; i < hw.size(); ++i) {
+    const std::string& t = hw[i];
+    if (t.rfind("g=", 0) == 0 && !seenG) {
+      seenG = true;
+      c.gtype = t.substr(2);
+      why = "gtype";
+      if (c.gtype != "int" && c.gtype != "long" && c.gtype != "big24" && c.gtype != "big40" && c.gtype != "pair") return false;
+    } else if (t.rfind("comm=", 0) == 0 && !seenC) {
+      seenC = true;
+      why = "comm";
+      std::string v = t.substr(5);
+      if (v == "w" || v == "d") c.comm = v[0];
+      else {
+        c.comm = 'l';
+        auto pm = split(v, '+');
+        if (pm.size() > 2) return false;
+        if (pm.size() == 2) { long n; if (!natural(pm[1], n) || n < 1) return false; c.extra = (int)n; }
+        for (auto& w : split(pm[0], '.')) {
+          long q;
+          if (!natural(w, q) || q >= c.P + c.extra) return false;
+          if (std::find(c.members.begin(), c.members.end(), (int)q) != c.members.end()) return false;
+          c.members.push_back((int)q);
+        }
+        if ((int)c.members.size() != c.P) return false;
+      }
+    } else { why = "header"; return false; }
+  }
+  why = "np";
+  if (c.P + c.extra != wsize) return false;
 
-  // validate all segments before anything collective happens (every rank sees the same line)
-  std::vector<std::string> segs;
+  why = "segment";
   for (auto& segRaw : split(body, ';')) {
     std::string seg;
-    for (char c : segRaw) if (c != ' ') seg.push_back(c);
-    if (!seg.empty()) segs.push_back(seg);
+    for (char ch : segRaw) if (ch != ' ') seg.push_back(ch);
+    if (seg.empty()) continue;
+    Seg sg;
+    sg.kind = seg[0];
+    std::string rest = seg.substr(1);
+    long n1, n2;
+    if (sg.kind == 'a' || sg.kind == 'd') {
+      auto f = split(rest, ',');
+      if (f.size() != (sg.kind == 'a' ? 6u : 3u)) return false;
+      if (!natural(f[0], n1) || !natural(f[1], n2) || n1 > 1 || n2 >= c.P) return false;
+      sg.s = (int)n1; sg.r = (int)n2;
+      if (!integer(f[2], sg.e.g)) return false;
+      if (!inRange(c.gtype, sg.e.g)) { why = "global index outside the type"; return false; }
+      if (sg.kind == 'a') {
+        long l, a;
+        if (!natural(f[3], l) || !natural(f[4], a) || a > 3) return false;
+        sg.e.l = l; sg.e.a = (int)a; sg.e.pub = f[5] == "1";
+      }
+    } else if (sg.kind == 'R') {
+      if (rest.size() != 1 || !natural(rest, n1) || n1 > 2) return false;
+      sg.s = (int)n1; sg.r = -1;
+    } else if (sg.kind == 'r') {
+      auto f = split(rest, ',');
+      if (f.size() != 2 || f[0].size() != 1 || !natural(f[0], n1) || n1 > 2 || !natural(f[1], n2) || n2 >= c.P) return false;
+      sg.s = (int)n1; sg.r = (int)n2;
+    } else if (sg.kind == 'S' || sg.kind == 'F') {
+      if (!rest.empty()) return false;
+    } else if (sg.kind == 'B') {
+      if (rest != "0" && rest != "1") return false;
+      sg.flag = rest == "1";
+    } else if (sg.kind == 'X') {
+      if (rest.empty() || (rest[0] != '0' && rest[0] != '1')) return false;
+      sg.k = rest[0] - '0';
+      if (rest.size() > 1) {
+        if (rest[1] != ',') return false;
+        sg.flag = true;
+        if (!parseHintsSeg(rest.substr(2), c.P, sg, why)) return false;
+      }
+    } else if (sg.kind == 'I') {
+      auto f = split(rest, ',');
+      if (f.size() != 2 || !natural(f[0], n1) || n1 >= c.P || (f[1] != "0" && f[1] != "1")) return false;
+      sg.r = (int)n1; sg.flag = f[1] == "1";
+    } else if (sg.kind == 'N') {
+      if (!parseHintsSeg(rest, c.P, sg, why)) return false;
+    } else return false;
+    c.segs.push_back(sg);
   }
+  return true;
+}
+
+// ------------------------------------------------------------------------------------------------------------------
+// a process of the communicator: rank/size are those of `comm`
+static Result runCase(const Case& c, Api& api, MPI_Comm comm, bool recordStats) {
+  int rank, size;
+  MPI_Comm_rank(comm, &rank);
+  MPI_Comm_size(comm, &size);
+  Result res;
+  const int P = c.P;
+  if (size != P) { res.impl = "HARNESS"; res.oracle = "FAIL harness: communicator of the wrong size"; return res; }
+  std::vector<bool> two = c.two, incl = c.incl, ring = c.ring;
+  std::vector<std::vector<int>> hints = c.hints;
+  bool mixed = false, anyIncl = false, anyDflt = false;
+  for (int r = 0; r < P; ++r) { if (two[r] != two[0]) mixed = true; if (incl[r]) anyIncl = true; if (c.dflt[r]) anyDflt = true; }
 
   // shadow state of every rank (objects 0, 1, 2), real state of this rank; roles: which object is source / target
   std::vector<std::array<Shadow, 3>> sh(P);
@@ -247,16 +480,7 @@ static Result exec(const std::string& line) {
   std::vector<int> srcO(P, 0), tgtO(P, 0);
   for (int r = 0; r < P; ++r) tgtO[r] = two[r] ? 1 : 0;
   auto objOf = [&](int r, int s) { return s == 2 ? 2 : (s == 0 ? srcO[r] : tgtO[r]); };
-  PIS sets[3];
-  std::unique_ptr<RI> rip;
-  if (dflt[rank]) {
-    rip.reset(new RI());
-    rip->setIndexSets(sets[srcO[rank]], sets[tgtO[rank]], MPI_COMM_WORLD, hints[rank]);
-    if (incl[rank]) rip->setIncludeSelf(true);  // otherwise the default constructor's includeSelf=false stays
-  } else {
-    rip.reset(new RI(sets[srcO[rank]], sets[tgtO[rank]], MPI_COMM_WORLD, hints[rank], incl[rank]));
-  }
-  RI& ri = *rip;
+  api.construct(c.dflt[rank], srcO[rank], tgtO[rank], hints[rank], incl[rank]);
 
   std::vector<std::string> obs;
   // built: a rebuild has happened on this object since construction / free / setIndexSets
@@ -265,52 +489,61 @@ static Result exec(const std::string& line) {
   std::vector<bool> bIncl = incl, bRing = ring;
   std::vector<std::vector<int>> bHints = hints;
   std::string fail;
-  long nB = 0, nS = 0, nR = 0, nEntries = 0, nSkipped = 0, nNoop = 0, nPartial = 0, nF = 0, nX = 0, nI = 0, nN = 0;
+  long nB = 0, nS = 0, nR = 0, nEntries = 0, nSkipped = 0, nNoop = 0, nPartial = 0, nF = 0, nX = 0, nXh = 0, nXcleared = 0, nI = 0, nN = 0;
   long maxList = 0;
+  // the hints the object holds are the ones passed last (the own rank may or may not have been removed already);
+  // reported only if the lists themselves give no reason to complain
+  std::string hintFail;
+  auto checkHints = [&](const char* after) {
+    std::set<int> want(hints[rank].begin(), hints[rank].end()), have = api.getNeighbours();
+    want.erase(rank);
+    have.erase(rank);
+    if (want != have && hintFail.empty())
+      hintFail = std::string("getNeighbours() after ") + after + " = {" + join(have.begin(), have.end(), ",") + "}, the hints passed are {" +
+             join(want.begin(), want.end(), ",") + "}";
+  };
+  checkHints("construction");
 
-  for (auto& seg : segs) {
-    char kind = seg[0];
+  for (auto& sg : c.segs) {
+    char kind = sg.kind;
     if (kind == 'a' || kind == 'd') {
-      auto f = split(seg.substr(1), ',');
-      if (f.size() != (kind == 'a' ? 6u : 3u)) return bad("segment");
-      int s = std::atoi(f[0].c_str()), r = std::atoi(f[1].c_str());
-      if (s < 0 || s > 1 || r < 0 || r >= P) return bad("segment");
+      int s = sg.s, r = sg.r;
       if (s == 1 && !two[r]) continue;
       int o = objOf(r, s);
       if (kind == 'a') {
-        Ent e{std::atol(f[2].c_str()), std::atol(f[3].c_str()), std::atoi(f[4].c_str()), f[5] == "1"};
-        if (e.a < 0 || e.a > 3 || e.l < 0) return bad("segment");
-        pend[r][o].adds.push_back(e);
+        pend[r][o].adds.push_back(sg.e);
       } else {  // a delete also cancels the pending adds of that global
-        long g = std::atol(f[2].c_str());
+        Val g = sg.e.g;
         auto& ad = pend[r][o].adds;
         ad.erase(std::remove_if(ad.begin(), ad.end(), [&](const Ent& e) { return e.g == g; }), ad.end());
         pend[r][o].dels.insert(g);
       }
     } else if (kind == 'R' || kind == 'r') {
-      int only = -1;
-      if (kind == 'R') {
-        if (seg.size() != 2 || seg[1] < '0' || seg[1] > '2') return bad("segment");
-      } else {
-        auto f = split(seg.substr(1), ',');
-        if (f.size() != 2 || f[0].size() != 1 || f[0][0] < '0' || f[0][0] > '2' || f[1].empty()) return bad("segment");
-        for (char c : f[1]) if (c < '0' || c > '9') return bad("segment");
-        only = std::atoi(f[1].c_str());
-        if (only < 0 || only >= P) return bad("segment");
-        ++nPartial;
-      }
-      int s = seg[1] - '0';
+      if (kind == 'r') ++nPartial;
       ++nR;
       for (int r = 0; r < P; ++r) {
-        if (only >= 0 && r != only) continue;
-        int obj = objOf(r, s);
-        applyResize(sets[obj], sh[r][obj], pend[r][obj], r == rank);
-        if (r == rank && s != 2) resizedSince = true;
+        if (sg.r >= 0 && r != sg.r) continue;
+        int obj = objOf(r, sg.s);
+        Pending& pe = pend[r][obj];
+        // shadow first: (old \ deleted) + adds whose key is new
+        Shadow nsh;
+        for (auto& kv : sh[r][obj]) if (!pe.dels.count(kv.second.g)) nsh.insert(kv);
+        std::vector<Ent> eff;
+        for (auto& e : pe.adds) {
+          Key k(e.g, e.a);
+          if (nsh.count(k)) continue;
+          nsh[k] = e;
+          eff.push_back(e);
+        }
+        if (r == rank) api.resize(obj, pe.dels, eff);
+        sh[r][obj] = nsh;
+        pe.adds.clear();
+        pe.dels.clear();
+        if (r == rank && sg.s != 2) resizedSince = true;
       }
     } else if (kind == 'S') {
-      if (seg.size() != 1) return bad("segment");
       ++nS;
-      bool sy = ri.isSynced();
+      bool sy = api.isSynced();
       obs.push_back(sy ? "s1" : "s0");
       if (built) {
         nontrivial = true;
@@ -319,49 +552,47 @@ static Result exec(const std::string& line) {
                  (resizedSince ? "an index set was resized since the rebuild" : "no index set was resized since the rebuild");
       }
     } else if (kind == 'F') {
-      if (seg.size() != 1) return bad("segment");
       ++nF;
-      ri.free();
+      api.freeLists();
       built = false;
-      obs.push_back("f" + std::to_string(ri.neighbours()));
-      if (ri.begin() != ri.end() && fail.empty()) fail = "remote index lists left after free()";
+      obs.push_back("f" + std::to_string(api.neighbours()));
+      if (!api.noLists() && fail.empty()) fail = "remote index lists left after free()";
     } else if (kind == 'X') {
-      if (seg.size() != 2 || (seg[1] != '0' && seg[1] != '1')) return bad("segment");
       ++nX;
-      if (seg[1] == '1')
+      if (sg.k == 1)
         for (int r = 0; r < P; ++r) std::swap(srcO[r], tgtO[r]);
-      ri.setIndexSets(sets[srcO[rank]], sets[tgtO[rank]], MPI_COMM_WORLD, hints[rank]);
+      if (sg.flag) {
+        ++nXh;
+        if (!ring[0] && sg.ring[0]) ++nXcleared;
+        hints = sg.hints;
+        ring = sg.ring;
+        api.setIndexSets(srcO[rank], tgtO[rank], sg.omitted[rank] ? nullptr : &hints[rank]);
+      } else {
+        api.setIndexSets(srcO[rank], tgtO[rank], &hints[rank]);
+      }
       built = false;
-      obs.push_back("x" + std::to_string(ri.neighbours()));
-      if (ri.begin() != ri.end() && fail.empty()) fail = "remote index lists left after setIndexSets()";
-      if ((&ri.sourceIndexSet() != &sets[srcO[rank]] || &ri.destinationIndexSet() != &sets[tgtO[rank]]) && fail.empty())
+      obs.push_back("x" + std::to_string(api.neighbours()));
+      if (!api.noLists() && fail.empty()) fail = "remote index lists left after setIndexSets()";
+      if (!api.setsAre(srcO[rank], tgtO[rank]) && fail.empty())
         fail = "sourceIndexSet()/destinationIndexSet() do not return the sets passed to setIndexSets()";
+      checkHints("setIndexSets()");
     } else if (kind == 'I') {
-      auto f = split(seg.substr(1), ',');
-      if (f.size() != 2 || f[0].empty() || (f[1] != "0" && f[1] != "1")) return bad("segment");
-      for (char c : f[0]) if (c < '0' || c > '9') return bad("segment");
-      int r = std::atoi(f[0].c_str());
-      if (r < 0 || r >= P) return bad("segment");
       ++nI;
-      incl[r] = f[1] == "1";
-      if (r == rank) ri.setIncludeSelf(incl[r]);
+      incl[sg.r] = sg.flag;
+      if (sg.r == rank) api.setIncludeSelf(sg.flag);
     } else if (kind == 'N') {
-      std::vector<std::vector<int>> nh;
-      std::vector<bool> nr;
-      if (!parseHints(seg.substr(1), P, nh)) return bad("segment");
-      if (const char* why = hintsProblem(nh, nr)) return bad(why);
       ++nN;
-      hints = nh;
-      ring = nr;
-      ri.setNeighbours(hints[rank]);
+      hints = sg.hints;
+      ring = sg.ring;
+      api.setNeighbours(hints[rank]);
+      checkHints("setNeighbours()");
     } else if (kind == 'B') {
-      if (seg.size() != 2 || (seg[1] != '0' && seg[1] != '1')) return bad("segment");
-      bool ign = seg[1] == '1';
+      bool ign = sg.flag;
       ++nB;
       // would rebuild<ign>() really rebuild on this rank?  The ranks must agree, otherwise the call does not return.
-      int need = (!built || ign != lastIgn || !ri.isSynced()) ? 1 : 0;
+      int need = (!built || ign != lastIgn || !api.isSynced()) ? 1 : 0;
       std::vector<int> needs(P);
-      MPI_Allgather(&need, 1, MPI_INT, needs.data(), 1, MPI_INT, MPI_COMM_WORLD);
+      MPI_Allgather(&need, 1, MPI_INT, needs.data(), 1, MPI_INT, comm);
       bool agree = true;
       for (int r = 0; r < P; ++r) if (needs[r] != needs[0]) agree = false;
       if (!agree) {
@@ -369,27 +600,27 @@ static Result exec(const std::string& line) {
         obs.push_back("b!");
         continue;
       }
-      if (ign) ri.rebuild<true>(); else ri.rebuild<false>();
+      api.rebuild(ign);
       if (need) { bIncl = incl; bHints = hints; bRing = ring; } else ++nNoop;
       built = true;
       lastIgn = ign;
       resizedSince = false;
       // observe
-      std::map<int, std::pair<std::vector<Tuple>, std::vector<Tuple>>> got;
+      Lists got;
+      std::string problem = api.lists(got);
+      if (!problem.empty() && fail.empty()) fail = problem;
       std::string o = "b";
       bool firstN = true;
-      for (auto it = ri.begin(); it != ri.end(); ++it) {
-        auto s = listOf(*it->second.first), r = listOf(*it->second.second);
-        got[it->first] = std::make_pair(s, r);
-        o += (firstN ? "" : " ") + std::to_string(it->first) + ":" + show(canon(s)) + "|" + show(canon(r));
+      for (auto& kv : got) {
+        auto& s = kv.second.first;
+        auto& r = kv.second.second;
+        o += (firstN ? "" : " ") + std::to_string(kv.first) + ":" + show(canon(s)) + "|" + show(canon(r));
         firstN = false;
         nEntries += (long)(s.size() + r.size());
         maxList = std::max(maxList, (long)std::max(s.size(), r.size()));
-        auto fit = ri.find(it->first);
-        if ((fit == ri.end() || fit->second.first != it->second.first) && fail.empty()) fail = "find(rank) does not return the entry of the iteration";
       }
       obs.push_back(o);
-      if ((int)got.size() != ri.neighbours() && fail.empty()) fail = "neighbours() differs from the number of entries";
+      if ((int)got.size() != api.neighbours() && fail.empty()) fail = "neighbours() differs from the number of entries";
       // oracle: the set definition, from the shadow decomposition of all ranks
       bool consistent = true;  // hints name every rank this rank shares a published index with
       for (int q = 0; q < P; ++q) {
@@ -398,7 +629,7 @@ static Result exec(const std::string& line) {
         const Shadow& qSrc = sh[q][srcO[q]];
         const Shadow& qTgt = sh[q][tgtO[q]];
         for (auto* S : {&mySrc, &myTgt}) {
-          std::set<long> seen;
+          std::set<Val> seen;
           for (auto& kv : *S) if (!seen.insert(kv.second.g).second) dupGlobals = true;
         }
         std::vector<Tuple> expS = joinDef(mySrc, qTgt, ign, false), expR = joinDef(myTgt, qSrc, ign, false);
@@ -449,14 +680,13 @@ static Result exec(const std::string& line) {
       for (auto& kv : got)
         if ((kv.first < 0 || kv.first >= P) && fail.empty()) fail = "entry for a rank outside the communicator";
       if (!consistent) stat("inconsistent_hints_rank_builds");
-    } else {
-      return bad("segment");
     }
   }
   res.impl = join(obs.begin(), obs.end(), ";");
+  if (fail.empty()) fail = hintFail;
   if (!fail.empty()) res.oracle = "FAIL " + fail;
   else res.oracle = nontrivial ? "ok" : "ok trivial";
-  if (rank == 0) {
+  if (recordStats) {  // the world process that writes the statistics (any member knows the whole case)
     stat(ring[0] ? "mode_ring" : "mode_neighbours");
     stat(mixed ? "sets_mixed" : (two[0] ? "sets_two" : "sets_one"));
     if (anyIncl) stat("includeSelf_some");
@@ -470,6 +700,8 @@ static Result exec(const std::string& line) {
     stat("ops_r_single_rank", nPartial);
     stat("ops_F", nF);
     stat("ops_X", nX);
+    stat("ops_X_new_hints", nXh);
+    stat("ops_X_hints_to_ring", nXcleared);
     stat("ops_I", nI);
     stat("ops_N", nN);
     stat("remote_index_entries_rank0", nEntries);
@@ -477,6 +709,72 @@ static Result exec(const std::string& line) {
     size_t tot = 0;
     for (int o = 0; o < 3; ++o) tot += sh[0][o].size();
     stat(tot == 0 ? "rank0_sets_empty" : tot <= 8 ? "rank0_sets_1_8" : tot <= 32 ? "rank0_sets_9_32" : "rank0_sets_33_up");
+  }
+  return res;
+}
+
+// a world process that is not in the communicator of the case: it runs the collective calls of the line on the
+// communicator of the remaining processes, with empty index sets, while the case runs
+static Result runIdle(const Case& c, Api& api, MPI_Comm comm) {
+  Result res;
+  res.impl = "";
+  res.oracle = "ok trivial";
+  api.construct(false, 0, 0, std::vector<int>(), false);
+  for (auto& sg : c.segs) {
+    if (sg.kind == 'B') api.rebuild(sg.flag);
+    else if (sg.kind == 'F') api.freeLists();
+    else if (sg.kind == 'X') api.setIndexSets(0, 0, nullptr);
+    else continue;
+    if (!api.noLists()) res.oracle = "FAIL a process outside the communicator of the case (empty index sets) has remote index lists";
+  }
+  (void)comm;
+  return res;
+}
+
+static Result exec(const std::string& line) {
+  int wrank, wsize;
+  MPI_Comm_rank(MPI_COMM_WORLD, &wrank);
+  MPI_Comm_size(MPI_COMM_WORLD, &wsize);
+  Result res;
+  Case c;
+  std::string why;
+  if (!parseCase(line, wsize, c, why)) {
+    res.impl = "bad-op";
+    res.oracle = "ok trivial " + why;
+    return res;
+  }
+  // the communicator of the case
+  MPI_Comm comm = MPI_COMM_WORLD;
+  const int role = c.roleOf(wrank);
+  bool member = role < c.P;
+  if (c.comm == 'd') MPI_Comm_dup(MPI_COMM_WORLD, &comm);
+  else if (c.comm == 'l') {
+    MPI_Comm_split(MPI_COMM_WORLD, member ? 0 : 1, member ? role : wrank, &comm);
+    int crank, csize;
+    MPI_Comm_rank(comm, &crank);
+    MPI_Comm_size(comm, &csize);
+    if (crank != (member ? role : role - c.P) || csize != (member ? c.P : c.extra)) {
+      res.impl = "HARNESS";
+      res.oracle = "FAIL harness: MPI_Comm_split did not give the requested numbering";
+      return res;
+    }
+  }
+  {
+    std::unique_ptr<Api> api(makeApi(c.gtype, comm));
+    res = member ? runCase(c, *api, comm, wrank == 0) : runIdle(c, *api, comm);
+  }
+  if (c.comm != 'w') MPI_Comm_free(&comm);
+  if (wrank == 0) {
+    if (!member) stat("cases_without_statistics_world0_left_out");
+    stat("gtype_" + c.gtype);
+    stat(c.comm == 'w' ? "comm_world" : c.comm == 'd' ? "comm_dup" : c.extra ? "comm_split_sub" : "comm_split_renumbered");
+  }
+  // answer number i of the line is that of the process with role i: hand it to world process i
+  if (c.comm == 'l') {
+    auto impls = allgatherStrings(res.impl);
+    auto oracles = allgatherStrings(res.oracle);
+    for (int w = 0; w < wsize; ++w)
+      if (c.roleOf(w) == wrank) { res.impl = impls[w]; res.oracle = oracles[w]; }
   }
   return res;
 }
@@ -493,9 +791,49 @@ static std::string hintString(const std::vector<std::set<int>>& nb, bool ringMod
 }
 
 static std::string gen(Rng& rng, long, const Args& args) {
-  int P;
-  MPI_Comm_size(MPI_COMM_WORLD, &P);
+  int W;
+  MPI_Comm_size(MPI_COMM_WORLD, &W);
   bool thorough = args.tier == "thorough";
+  // the communicator: MPI_COMM_WORLD, a duplicate, all processes renumbered, or some of them in any order
+  std::string commTok;
+  int P = W;
+  {
+    int ck = (int)rng.below(20);
+    if (ck < 11) commTok = rng.coin(1, 6) ? " comm=w" : "";
+    else if (ck < 13) commTok = " comm=d";
+    else {
+      std::vector<int> ws;
+      for (int w = 0; w < W; ++w) ws.push_back(w);
+      for (int i = W - 1; i > 0; --i) std::swap(ws[i], ws[rng.below(i + 1)]);
+      if (ck >= 16 && W >= 2) P = W - 1 - (W >= 4 && rng.coin(1, 3) ? 1 : 0);
+      if (ck == 19 && rng.coin()) std::sort(ws.begin(), ws.begin() + P);  // order of the world kept
+      ws.resize(P);
+      commTok = " comm=" + join(ws.begin(), ws.end(), ".") + (P < W ? "+" + std::to_string(W - P) : "");
+    }
+  }
+  // the global index type and the map from the small numbers used below to values of the type: apart from int the
+  // values need all digits / both halves of the representation, and values that differ only in the most significant
+  // part occur together with values that differ only in the least significant part
+  std::string gtype = "int";
+  {
+    int gk = (int)rng.below(20);
+    if (gk < 9) gtype = "int";
+    else if (gk < 12) gtype = "long";
+    else if (gk < 15) gtype = "big24";
+    else if (gk < 18) gtype = "big40";
+    else gtype = "pair";
+  }
+  std::string gTok = gtype == "int" ? (rng.coin(1, 8) ? " g=int" : "") : " g=" + gtype;
+  int intKind = (int)rng.below(6);  // int: 0 = values near INT_MAX, 1 = near INT_MIN, else small
+  auto gv = [&](long g) -> Val {
+    if (gtype == "int") return intKind == 0 ? 2147483647LL - 600 + g : intKind == 1 ? -2147483648LL + 8 + g : (Val)g;
+    if (gtype == "long") return (Val)g * 4294967299LL;                    // both halves vary, also negative
+    int T = gtype == "big24" ? 16 : gtype == "big40" ? 32 : 20;           // pair: first component = g >> 2
+    return (Val)(g & 3) + ((Val)(g >> 2) << T);
+  };
+  auto gs = [&](long g) { return std::to_string(gv(g)); };
+  bool negativeOk = gtype == "int" || gtype == "long";
+
   // kinds of systems
   int kind = (int)rng.below(100);
   bool dup = false, mixed = false, allTwo = false;
@@ -516,7 +854,7 @@ static std::string gen(Rng& rng, long, const Args& args) {
   bool big = rng.coin(1, 14);  // long lists
 
   int nG = big ? (int)rng.range(20, thorough ? 70 : 40) : (int)rng.range(1, thorough ? 14 : 9);
-  long base = rng.coin(1, 5) ? -(long)rng.below(4) : (long)rng.below(50);
+  long base = (negativeOk && rng.coin(1, 5)) ? -(long)rng.below(4) : (long)rng.below(50);
   int pubKind = (int)rng.below(10);  // 0: none public, 1..2: all public, else mostly
   double dens = big ? 0.5 + 0.1 * (double)rng.below(4) : 0.25 + 0.15 * (double)rng.below(5);
   std::vector<std::string> segs;
@@ -531,7 +869,7 @@ static std::string gen(Rng& rng, long, const Args& args) {
   auto addEntry = [&](int s, int r, long g, int attr) {
     int o = objOf(r, s);
     long l = rng.coin(1, 6) ? (long)rng.below(40) : nextLocal[r][o]++;
-    segs.push_back("a" + std::to_string(s) + "," + std::to_string(r) + "," + std::to_string(g) + "," + std::to_string(l) +
+    segs.push_back("a" + std::to_string(s) + "," + std::to_string(r) + "," + gs(g) + "," + std::to_string(l) +
                    "," + std::to_string(attr) + "," + (pubFlag() ? "1" : "0"));
     cur[r][o][g].push_back(attr);
     ever[r].insert(g);
@@ -592,10 +930,22 @@ static std::string gen(Rng& rng, long, const Args& args) {
   };
 
   int phases = (int)rng.below(thorough ? 5 : 4);
-  std::vector<size_t> hintSlots;  // positions of N segments, filled in when the whole history is known
-  std::vector<int> hintSlotKind;
+  // positions of segments that carry hints (N..., X<k>,...), filled in when the whole history is known
+  std::vector<size_t> hintSlots;
+  std::vector<int> hintSlotKind;  // 0: ring, 1: sparse, else covering
+  auto hintSeg = [&](const std::string& prefix, int kindOfHints) {
+    hintSlots.push_back(segs.size());
+    hintSlotKind.push_back(kindOfHints);
+    segs.push_back(prefix);
+  };
+  auto X = [&](bool swap, int hintKind /* -1: pass the hints in force again */) {
+    std::string x = swap ? "X1" : "X0";
+    if (swap) for (int r = 0; r < P; ++r) std::swap(srcO[r], tgtO[r]);
+    if (hintKind < 0) segs.push_back(x);
+    else hintSeg(x + ",", hintKind);
+  };
   for (int ph = 0; ph < phases; ++ph) {
-    int what = (int)rng.below(20);
+    int what = (int)rng.below(23);
     if (what < 3) {  // rebuild again without any resize: same ign (no-op) or the other ign
       if (rng.coin()) ign = !ign;
       B(ign);
@@ -617,10 +967,8 @@ static std::string gen(Rng& rng, long, const Args& args) {
       segs.push_back("S");
       continue;
     }
-    if (what < 8) {  // setIndexSets again, with the roles kept or exchanged
-      bool swap = rng.coin(2, 3);
-      segs.push_back(swap ? "X1" : "X0");
-      if (swap) for (int r = 0; r < P; ++r) std::swap(srcO[r], tgtO[r]);
+    if (what < 8) {  // setIndexSets again, with the roles kept or exchanged, the hints passed again or new ones
+      X(rng.coin(2, 3), rng.coin() ? -1 : (int)rng.below(4));
       if (rng.coin()) segs.push_back("S");
       B(ign);
       segs.push_back("S");
@@ -636,9 +984,7 @@ static std::string gen(Rng& rng, long, const Args& args) {
       continue;
     }
     if (what < 10) {  // new neighbour hints (possibly switching between ring and neighbour mode)
-      hintSlots.push_back(segs.size());
-      hintSlotKind.push_back((int)rng.below(4));  // 0: ring, 1: sparse, else covering
-      segs.push_back("N?");
+      hintSeg("N", (int)rng.below(4));
       if (rng.coin(1, 3)) { B(ign); segs.push_back("S"); }
       segs.push_back(rng.coin() ? "F" : "R0");
       B(ign);
@@ -655,6 +1001,20 @@ static std::string gen(Rng& rng, long, const Args& args) {
       segs.push_back("S");
       continue;
     }
+    if (what < 15) {  // re-targeting: hints (sparse ones leave sharing ranks out), build, setIndexSets with other hints
+      // or none at all (ring), build: the lists are those of the hints passed last
+      int k1 = 1 + (int)rng.below(2) * (int)rng.below(2);  // mostly sparse
+      if (rng.coin()) hintSeg("N", k1); else X(rng.coin(), k1);
+      segs.push_back(rng.coin() ? "F" : "R0");
+      B(ign);
+      int k2 = rng.coin(2, 3) ? 0 : (int)rng.below(3);     // mostly none
+      X(rng.coin(), k2);
+      if (rng.coin(1, 3)) segs.push_back("S");
+      if (rng.coin(1, 3)) ign = !ign;
+      B(ign);
+      segs.push_back("S");
+      continue;
+    }
     // modify: deletes and adds, then resize a non-empty subset of {source, target}
     int nd = (int)rng.below(3), na = (int)rng.below(3);
     for (int i = 0; i < nd; ++i) {
@@ -664,7 +1024,7 @@ static std::string gen(Rng& rng, long, const Args& args) {
       if (c.empty()) continue;
       auto it = c.begin();
       std::advance(it, rng.below(c.size()));
-      segs.push_back("d" + std::to_string(s) + "," + std::to_string(r) + "," + std::to_string(it->first));
+      segs.push_back("d" + std::to_string(s) + "," + std::to_string(r) + "," + gs(it->first));
       c.erase(it);
     }
     for (int i = 0; i < na; ++i) {
@@ -689,11 +1049,11 @@ static std::string gen(Rng& rng, long, const Args& args) {
   std::string hintStr = hintString(makeHints(sparse), ringMode);
   for (size_t i = 0; i < hintSlots.size(); ++i) {
     int k = hintSlotKind[i];
-    segs[hintSlots[i]] = "N" + hintString(makeHints(k == 1), k == 0);
+    segs[hintSlots[i]] += hintString(makeHints(k == 1), k == 0);
   }
   std::string flags;
   for (int r = 0; r < P; ++r) flags.push_back((char)('0' + two[r] + 2 * inclInit[r] + 4 * dflt[r]));
-  return "c04 " + std::to_string(P) + " " + flags + " " + hintStr + " : " + join(segs.begin(), segs.end(), ";");
+  return "c04 " + std::to_string(P) + " " + flags + " " + hintStr + gTok + commTok + " : " + join(segs.begin(), segs.end(), ";");
 }
 
 int main(int argc, char** argv) {
